@@ -140,3 +140,13 @@ def real_layer(f, metrics_by_model, dims_by_model, extra_model_kw=None):
         kw = dict((extra_model_kw or {}).get(m["name"], {}))
         L.add_model(Model(name=m["name"], table=m["name"], primary_key=(["id", "id2"] if m["composite"] else "id"), relationships=rels, dimensions=dims, metrics=mets, **kw))
     return L
+
+
+def corpus_forest():
+    """customers <- orders (many_to_one), customers <-1:1- profiles; the data behind the listed C02/C03/C04 findings"""
+    cu = dict(name="ma", composite=False, rels=[dict(name="mc", type="one_to_one", foreign_key="fk_a")],
+              rows=[[1, "k1", 100, 1, "x", None, None], [2, "k2", None, 0, "y", None, None], [3, "k3", 7, 2, "x", None, None]])
+    od = dict(name="mb", composite=False, rels=[dict(name="ma", type="many_to_one", foreign_key="fk_a")],
+              rows=[[1, "k1", 10, 1, "a", 1, "k1"], [2, "k2", 20, 0, "b", 1, "k1"], [3, "k3", 5, 1, "a", 2, "k2"], [4, "k4", 1, None, "a", None, None]])
+    pr = dict(name="mc", composite=False, rels=[], rows=[[1, "k1", 3, 1, "p", 1, "k1"], [2, "k2", 4, 1, "q", None, None], [3, "k3", 5, 0, "q", 99, "k99"]])
+    return dict(models=[cu, od, pr], links=[])
